@@ -25,6 +25,131 @@ from .variants import VARIANTS
 ALL_PROPS = [f'C{i:02d}' for i in range(1, 21)]
 
 
+MODERNISE_KINDS = ('suppress', 'else_nest', 'else_unnest', 'cmp_flip', 'tern_expand', 'aug_expand')
+_TERMINAL = None
+
+
+def _pure(e):
+    import ast
+    for n in ast.walk(e):
+        if isinstance(n, ast.Call) and not (isinstance(n.func, ast.Name) and n.func.id in ('len', 'type', 'id')):
+            return False
+        if isinstance(n, (ast.NamedExpr, ast.Yield, ast.YieldFrom, ast.Await, ast.Lambda, ast.IfExp, ast.BoolOp)):
+            return False
+    return True
+
+
+def modernise_sites(tree, kind):
+    """Positions (lineno, col) of the statements of `tree` that the behaviour-preserving rewrite `kind` applies to."""
+    import ast
+    term = (ast.Return, ast.Raise, ast.Continue, ast.Break)
+    out = []
+    for parent in ast.walk(tree):
+        for field in ('body', 'orelse', 'finalbody'):
+            lst = getattr(parent, field, None)
+            if not isinstance(lst, list):
+                continue
+            for i, st in enumerate(lst):
+                if not isinstance(st, ast.stmt):
+                    continue
+                ok = False
+                if kind == 'suppress':
+                    ok = isinstance(st, ast.Try) and st.handlers and not st.orelse and not st.finalbody and \
+                        all(len(h.body) == 1 and isinstance(h.body[0], ast.Pass) and h.name is None for h in st.handlers)
+                elif kind == 'else_nest':
+                    ok = isinstance(st, ast.If) and not st.orelse and isinstance(st.body[-1], term) and i + 1 < len(lst) and \
+                        not isinstance(parent, ast.ClassDef)
+                elif kind == 'else_unnest':
+                    ok = isinstance(st, ast.If) and st.orelse and isinstance(st.body[-1], term)
+                elif kind == 'cmp_flip':
+                    ok = not isinstance(st, (ast.FunctionDef, ast.AsyncFunctionDef, ast.ClassDef)) and _first_flippable(st) is not None
+                elif kind == 'tern_expand':
+                    ok = (isinstance(st, ast.Return) and isinstance(st.value, ast.IfExp)) or \
+                        (isinstance(st, ast.Assign) and len(st.targets) == 1 and isinstance(st.value, ast.IfExp) and
+                         isinstance(st.targets[0], (ast.Name, ast.Attribute)) and _pure(st.targets[0]))
+                elif kind == 'aug_expand':
+                    ok = isinstance(st, ast.AugAssign) and isinstance(st.target, (ast.Name, ast.Attribute)) and _pure(st.target) and \
+                        isinstance(st.value, ast.Constant) and isinstance(st.value.value, (int, float)) and not isinstance(st.value.value, bool)
+                if ok:
+                    out.append((st.lineno, st.col_offset))
+    return sorted(set(out))
+
+
+def _own_exprs(st):
+    """The expressions evaluated by the statement itself (not those of nested statements)."""
+    import ast
+    for name, val in ast.iter_fields(st):
+        if name in ('body', 'orelse', 'finalbody', 'handlers', 'decorator_list'):
+            continue
+        for v in (val if isinstance(val, list) else [val]):
+            if isinstance(v, ast.expr):
+                yield v
+            elif isinstance(v, ast.withitem):
+                yield v.context_expr
+
+
+def _first_flippable(st):
+    import ast
+    flip = {ast.Lt: ast.Gt, ast.Gt: ast.Lt, ast.LtE: ast.GtE, ast.GtE: ast.LtE, ast.Eq: ast.Eq, ast.NotEq: ast.NotEq, ast.Is: ast.Is, ast.IsNot: ast.IsNot}
+    for e in _own_exprs(st):
+        for n in ast.walk(e):
+            if isinstance(n, ast.Compare) and len(n.ops) == 1 and type(n.ops[0]) in flip and _pure(n.left) and _pure(n.comparators[0]):
+                return n, flip[type(n.ops[0])]
+    return None
+
+
+def modernise(tree, kind, lineno, col):
+    """Apply the behaviour-preserving rewrite `kind` to the statement of `tree` at (lineno, col); False when it does not apply."""
+    import ast
+    for parent in ast.walk(tree):
+        for field in ('body', 'orelse', 'finalbody'):
+            lst = getattr(parent, field, None)
+            if not isinstance(lst, list):
+                continue
+            for i, st in enumerate(lst):
+                if not (isinstance(st, ast.stmt) and (st.lineno, st.col_offset) == (lineno, col)):
+                    continue
+                if (lineno, col) not in modernise_sites(tree, kind):
+                    return False
+                if kind == 'suppress':
+                    types = []
+                    for h in st.handlers:
+                        if h.type is None:
+                            types.append(ast.Name(id='BaseException', ctx=ast.Load()))
+                        elif isinstance(h.type, ast.Tuple):
+                            types += h.type.elts
+                        else:
+                            types.append(h.type)
+                    call = ast.Call(func=ast.Attribute(value=ast.Name(id='contextlib', ctx=ast.Load()), attr='suppress', ctx=ast.Load()), args=types, keywords=[])
+                    lst[i] = ast.With(items=[ast.withitem(context_expr=call, optional_vars=None)], body=st.body)
+                    at = 1 if (tree.body and isinstance(tree.body[0], ast.Expr) and isinstance(tree.body[0].value, ast.Constant)) else 0
+                    tree.body.insert(at, ast.Import(names=[ast.alias(name='contextlib', asname=None)]))
+                elif kind == 'else_nest':
+                    st.orelse = lst[i + 1:]
+                    del lst[i + 1:]
+                elif kind == 'else_unnest':
+                    rest, st.orelse = st.orelse, []
+                    lst[i + 1:i + 1] = rest
+                elif kind == 'cmp_flip':
+                    n, op = _first_flippable(st)
+                    n.left, n.comparators, n.ops = n.comparators[0], [n.left], [op()]
+                elif kind == 'tern_expand':
+                    ife = st.value
+                    if isinstance(st, ast.Return):
+                        a, b = ast.Return(value=ife.body), ast.Return(value=ife.orelse)
+                    else:
+                        import copy
+                        a, b = ast.Assign(targets=[st.targets[0]], value=ife.body), ast.Assign(targets=[copy.deepcopy(st.targets[0])], value=ife.orelse)
+                    lst[i] = ast.If(test=ife.test, body=[a], orelse=[b])
+                elif kind == 'aug_expand':
+                    import copy
+                    load = copy.deepcopy(st.target)
+                    load.ctx = ast.Load()
+                    lst[i] = ast.Assign(targets=[st.target], value=ast.BinOp(left=load, op=st.op, right=st.value))
+                return True
+    return False
+
+
 def apply_edit(root, rel, old, new):
     if rel == '__patch__':
         # a kept seeded change (/verif/seeded/<id>/patch.diff), applied to the scratch copy with git apply (works outside a repository)
@@ -141,6 +266,15 @@ def apply_edit(root, rel, old, new):
                     st.body = inner.body
                     done = True
         if not done:
+            return False
+        ast.fix_missing_locations(tree)
+        with open(path, 'w', newline='') as f:
+            f.write(ast.unparse(tree) + '\n')
+        return True
+    if isinstance(old, tuple) and old[0] in MODERNISE_KINDS:
+        import ast
+        tree = ast.parse(raw)
+        if not modernise(tree, old[0], old[1], old[2]):
             return False
         ast.fix_missing_locations(tree)
         with open(path, 'w', newline='') as f:
